@@ -23,9 +23,23 @@ fn oracle_step(seed: u64, arg: f64) -> (Option<f64>, u64) {
 
 pub fn boundary_seeds() -> Vec<u64> {
     let mut v = vec![0u64, 1, 2, 12345, (1 << 33) - 1, 1 << 33, (1 << 33) + 1, 1 << 40, (1 << 44) - 1, 1 << 44, (1 << 44) + 12345, 1 << 53, 1 << 63, u64::MAX - 1, u64::MAX, 11081650051, 8589934591, 4294967296];
-    // seeds whose successor is 0 or M-1 etc. are found by the exhaustive sweep; add a few multiples
     for k in 1..8u64 {
         v.push(k * (1 << 33) + 7);
+    }
+    // the states whose successor is a special value (0, 1, M-1, M/2, the increment ...), and their own predecessors:
+    // s = A^-1 (t - C) mod 2^33, with A^-1 by Newton iteration (A is odd)
+    let mut inv: u128 = 1;
+    for _ in 0..6 {
+        inv = (inv * (2 + M - (A * inv) % M)) % M;
+    }
+    debug_assert_eq!((A * inv) % M, 1);
+    for t in [0u128, 1, 2, M - 1, M - 2, M / 2, M / 2 - 1, M / 2 + 1, C, 1 << 32, (1 << 32) - 1] {
+        let mut x = t;
+        for _ in 0..3 {
+            x = (inv * ((x + M - C % M) % M)) % M;
+            v.push(x as u64);
+            v.push((x + M) as u64);
+        }
     }
     v
 }
@@ -110,6 +124,35 @@ pub fn cases(rng: &mut Rng, tier: &str) -> (Vec<Case>, bool) {
             nontrivial: kinds.len() >= 2,
             show: format!("seed {} then {} RND calls", seed, steps),
         });
+    }
+    // the sequence a PROGRAM sees: seed, optional earlier calls at the prompt, then RUN of a program that calls RND
+    for _ in 0..(n_sessions / 10).max(10) {
+        let seed = if rng.chance(1, 2) { rng.pick(&boundary_seeds()) } else { rng.next() >> rng.below(40) };
+        let mut w = crate::prog::Walk::new(false, false);
+        w.op(&format!("seed {}", seed));
+        let mut state = (seed as u128 % M) as u64;
+        for _ in 0..rng.range(0, 3) {
+            w.start("X = RND(1)");
+            state = oracle_step(state, 1.0).1;
+        }
+        let first_zero = rng.chance(1, 2);
+        w.start(if first_zero { "10 A = RND(0)" } else { "10 A = RND(1)" });
+        w.start("20 B = RND(1)");
+        w.start("30 C = RND(0)");
+        w.start("RUN");
+        let mut nr = 0;
+        w.drive(&[], &mut nr, 20, false);
+        let mut checks = vec![];
+        let (a, s1) = oracle_step(state, if first_zero { 0.0 } else { 1.0 });
+        let (b, s2) = oracle_step(s1, 1.0);
+        let (c, _) = oracle_step(s2, 0.0);
+        for (name, v) in [("A", a), ("B", b), ("C", c)] {
+            w.start(&format!("PRINT {}", name));
+            w.op("take");
+            checks.push(format!("reply-is {} P:{}", w.last(), hexs(&format!("{}\n", v.unwrap()))));
+        }
+        w.op("snap");
+        cases.push(Case { ops: w.ops, checks, tag: "program-run".into(), nontrivial: true, show: format!("seed {} then RUN of a program calling RND", seed) });
     }
     (cases, false)
 }
